@@ -414,18 +414,18 @@ pub fn check_ports(c: &PortCase, rec: &mut Rec) -> Result<(), String> {
     let mut written = [false; 16];
     for (sel, val) in &c.writes {
         mach::set_regs(&mut e, &RegFile { pc: 0x8002, sp: 0xBF00, bc: 0xFFFD, af: (*sel as u16) << 8, ..Default::default() });
-        mach::single_step(&mut e)?;
+        mach::step_over(&mut e, 2)?;
         mach::set_regs(&mut e, &RegFile { pc: 0x8002, sp: 0xBF00, bc: 0xBFFD, af: (*val as u16) << 8, ..Default::default() });
-        mach::single_step(&mut e)?;
+        mach::step_over(&mut e, 2)?;
         let r = (*sel & 0x0F) as usize;
         model[r] = *val;
         written[r] = true;
         // read back the same register, then another one
         for probe in [*sel, sel.wrapping_add(0x35)] {
             mach::set_regs(&mut e, &RegFile { pc: 0x8002, sp: 0xBF00, bc: 0xFFFD, af: (probe as u16) << 8, ..Default::default() });
-            mach::single_step(&mut e)?;
+            mach::step_over(&mut e, 2)?;
             mach::set_regs(&mut e, &RegFile { pc: 0x8000, sp: 0xBF00, bc: 0xFFFD, ..Default::default() });
-            mach::single_step(&mut e)?;
+            mach::step_over(&mut e, 2)?;
             let got = (mach::get_regs(&mut e).af >> 8) as u8;
             let pr = (probe & 0x0F) as usize;
             rec.eval();
